@@ -5,12 +5,14 @@ ENTRY = dict(
         title="Cut finding is reproducible under a seed and independent of call history",
         prop_file="Properties/C09.v",
         corr_files=["Corr/C09Corr.v"],
-        theorems=["c09_greedy_writes_identity", "c09_registries_invariant", "c09_registries_invariant_history",
+        theorems=["c09_inf_is_exact", "c09_finite_exact_threshold", "c09_invalid_num_samples_exact",
+                  "c09_greedy_writes_identity", "c09_registries_invariant", "c09_registries_invariant_history",
                   "c09_rng_untouched", "c09_state_untouched", "c09_state_untouched_history", "c09_py_never_written",
                   "c09_np_only_writer", "c09_history_independent", "c09_rng_independent", "c09_seeded",
-                  "c09_gen_exact_pure", "c09_from_instruction_pure", "c09_fresh_interpreter", "c09_copy_ok",
-                  "c09_import_registry_ok", "c09_facts_action_table", "c09_facts_func_tables", "c09_facts_basis_registry", "c09_facts_greedy_writes",
-                  "c09_facts_no_direct_global_write", "c09_facts_cut_finding_sources"],
+                  "c09_gen_exact_pure", "c09_gen_finite_exact_pure", "c09_from_instruction_pure", "c09_fresh_interpreter",
+                  "c09_copy_ok", "c09_import_registry_ok", "c09_facts_action_table", "c09_facts_func_tables",
+                  "c09_facts_basis_registry", "c09_facts_greedy_writes", "c09_facts_no_direct_global_write",
+                  "c09_facts_cut_finding_sources"],
         allowed_axioms=[],
         facts=["registry_names", "c09_module_globals", "c09_import_time_calls", "c09_global_uses", "c09_global_writes",
                "c09_action_table", "c09_func_tables", "c09_registry_classes", "c09_registry_method_writes",
@@ -22,18 +24,21 @@ ENTRY = dict(
                    "process-state model: the package's four process-global registries and numpy's/Python's global generators as state, "
                    "find_cuts / generate_cutting_experiments / QPDBasis.from_instruction as a transition function that performs the reads and "
                    "writes found in the source. Proved: registries invariant under every call and history; global generators untouched by the "
-                   "three call classes (numpy's moves only in a finite-num_samples generation that reaches the sampler); results independent of "
+                   "three call classes, where the generation class is `does not reach the sampler`: num_samples = inf always, finite num_samples >= "
+                   "1/smallest probability, and refused num_samples < 1 (numpy's state moves only in a generation that reaches the sampler); results independent of "
                    "history, of the generator states and of the interpreter; closed form of the seeded result. Closed under the global context. "
-                   "The model's write-set is tied to /repo by 14 regenerated AST facts over the whole package (globals, every write to them or "
+                   "The model's write-set is tied to /repo by 15 regenerated AST facts over the whole package (globals, every write to them or "
                    "through a parameter, every RNG use, every history source) and by running >250 real calls per run in separate interpreters.",
         level_note=STD_NOTE + "No axioms. The theorems are about the PROCESS MODEL (Model/Process.v), not about CPython: what the three calls "
                    "compute from their inputs is abstract (record `oracles`, fields are functions), so the proved content is exactly that only the "
                    "listed inputs (filtered registry copy, function table, decomposition-registry keys, arguments, seeded tape) can influence a "
                    "result and that no call leaves a trace in the process state. That the real code reads and writes nothing else rests on "
                    "(i) the facts obligations in Properties/C09.v (static, whole package, fail-closed: a new module global, a new write to one or "
-                   "through an aliased parameter, a new np.random/random/uuid/time/id/hash use breaks a proof obligation) and (ii) the history "
+                   "through an aliased parameter / a local aliasing a global / a function or class attribute / a two-level self chain in cut_finding, "
+                   "a new np.random/random/uuid/time/id/hash use breaks a proof obligation) and (ii) the history "
                    "correspondence (dynamic: fingerprints of the real registries, object identities, both generator states and canonical results "
-                   "after every call of 36+ histories per run, each also against a fresh interpreter). State inside Qiskit/numpy/rustworkx "
+                   "after every call of 36+ histories per run, each also against a fresh interpreter; PYTHONHASHSEED is drawn per interpreter for one "
+                   "history variant and half of the fresh interpreters, and one variant passes the same argument objects again). State inside Qiskit/numpy/rustworkx "
                    "(e.g. Qiskit's counter that names anonymous registers) is outside the model.",
         assumptions=[
             "Model/Process.v is a hand-written model of the process-global state of qiskit_addon_cutting and of the reads/writes of it performed by "
@@ -48,6 +53,17 @@ ENTRY = dict(
             "of the default arguments that alias them is checked after every call by the harness",
             "process-global state inside dependencies (Qiskit's register-name counter, numpy internals other than the global RandomState, the Rust "
             "TwoQubitWeylDecomposition) is not modelled; anonymous register names are interned per result like uuids",
+            "judge (property-level oracle) covers: equal subject calls give equal canonical results across positions, histories and fresh interpreters, "
+            "and a subject call leaves numpy's and Python's global generator states unchanged. A change of a registry that changes no result is reported "
+            "as a model/implementation disagreement without a judged input (the property text speaks about results only)",
+            "observation (outside the quantifier): partition_problem names the registers of its subcircuits through Qiskit's process-global counter of "
+            "anonymous registers (utils/transforms.py QuantumRegister(bits=...)), so these NAMES depend on the call history; generate_cutting_experiments "
+            "receives them as part of its arguments and is pure in them",
+            "the different variants of a family are compared with each other through the shared fresh-interpreter table (two histories that disagree "
+            "with each other cannot both agree with it), not pairwise",
+            "not modelled because unreachable from the three calls: the scalar group_name branch of ActionNames.define_action and "
+            "get_action_subset(None, groups); early exits of find_cuts before the greedy pass (max_gamma < 1, conversion errors) are modelled as if the "
+            "identity writes had happened (unobservable)",
             "results are compared as canonical forms: instruction lists via harness/circ.py, metadata, coefficient lists and basis maps with floats "
             "compared bit for bit (float.hex / sha256 of matrix bytes)",
         ],
